@@ -709,10 +709,10 @@ def run(ctx):
     want = replay_setup(ctx)
     quick = ctx.tier == "quick"
     binp = build_harness(ctx)
-    msgs, spans = regen(ctx, ["grid", "ranges"])
+    msgs, spans = regen(ctx, ["grid", "ranges", "gridres"])
     ctx.cov["translated_spans"] = {k: v for k, v in spans.items() if k.startswith("grid.") or k.startswith("ranges.")}
     for m in msgs:
-        ctx.proof_failures.append(("Gen/Ranges.v" if "generator ranges" in m else "Gen/Grid.v", "translator", m))
+        ctx.proof_failures.append(("Gen/Ranges.v" if "generator ranges" in m else "Gen/GridRes.v" if "generator gridres" in m else "Gen/Grid.v", "translator", m))
     proved = (not msgs) and prove(ctx, "C14", extra_targets=["Model/GridCheck.vo", "Proofs/C14_casetac.vo", "Props/C14_pins.vo"])
     # F6 is fixed (fd4cfc7); its historical record is built separately and a failure there is only a note
     okf, _, _ = coq_build(ctx, ["Findings/C14_transpose.vo"]) if not msgs else (True, [], "")
@@ -760,6 +760,10 @@ def run(ctx):
                        "transpose: every shape 1..12 x 1..12, plus lengths 0..13 x num_cols 0..4 (ragged / zero columns, model correspondence only); spaces: random wavelength / frequency (equal and unequal spans) / sum-diff spaces with counts 0..300; "
                        "range evaluators: two SPDC setups x three representations x flat lists; every range function of the generated call table (incl. normalized and idler variants) against point-by-point evaluation, bit-exact on a 1-thread pool, on an asymmetric type-II setup with non-square grids whose axes differ in centre, span and count.  distinct = distinct input bits; empty grids count as trivial")
     ctx.cov["clauses"] = {
+        "set_resolution / with_resolution of the three spaces (generated, Gen/GridRes.v): counts become (res, res), end points kept, res^2 points with the "
+        "original corners, commutes with every conversion; constructors and Steps2D::ranges keep the axis order":
+            "proved (C14_set_resolution, C14_set_resolution_grid, C14_set_resolution_corners, C14_set_resolution_commutes_with_conversions, "
+            "C14_constructors_and_ranges); tied to the source by generation only (pure tuple shuffles, not executed against the implementation)",
         "1-D: n values, first, last, even spacing": "proved (reals, generated Steps::value); float error proved <= 4u of the range scale (Flocq; binary64 under a no-underflow guard) and checked on every sample",
         "1-D/2-D from either end, any interleaving": "proved (any carrier, generated next/next_back)",
         "2-D: nx*ny points, first axis fastest": "proved (any carrier: exact)",
